@@ -441,6 +441,19 @@ impl<'tcx> Dumper<'tcx> {
                 let tid = self.ty(t);
                 Some(obj(&[("bytes", arr(&v)), ("ty", tid.to_string())]))
             }
+            ty::FnPtr(..) => {
+                // a function pointer in a constant table: the function item it points to
+                if let ConstValue::Scalar(mir::interpret::Scalar::Ptr(ptr, _)) = val {
+                    let aid = ptr.provenance.alloc_id();
+                    if let Some(rustc_middle::mir::interpret::GlobalAlloc::Function { instance, .. }) = tcx.try_get_global_alloc(aid) {
+                        let env = TypingEnv::fully_monomorphized();
+                        let fr = self.fn_ref(instance.def_id(), instance.args, env);
+                        let tid = self.ty(t);
+                        return Some(obj(&[("fnptr", fr), ("ty", tid.to_string())]));
+                    }
+                }
+                None
+            }
             ty::Array(..) | ty::Tuple(..) | ty::Adt(..) => {
                 if let ty::Adt(def, _) = t.kind() {
                     if !(def.is_struct() || def.is_enum()) {
